@@ -104,7 +104,8 @@ class System:
     def apply(self, op):
         """Apply one operation through the public API."""
         n = abs(self.cfg.get('N', 0))
-        w, o = self.worlds[op.get('target', 0) % len(self.worlds)], self.orbit
+        tgt = op.get('target', 0)
+        w, o = (self.host if tgt == 'host' else self.worlds[tgt % len(self.worlds)]), self.orbit
         kind = op['op']
         a = {k: self.value(v, n) for k, v in op.get('args', {}).items()}
         if kind == 'w.set_state':
@@ -150,6 +151,12 @@ class System:
             put('host.dUdM', lambda: h.dUdM)
             put('host.dUdO', lambda: h.dUdO)
             put('host.global_love_by_orderl', lambda: _plain(h.tides.global_love_by_orderl))
+            put('host.dUdw', lambda: h.dUdw)
+            put('host.unique_tidal_frequencies', lambda: _plain(h.tides.unique_tidal_frequencies))
+            put('host.tidal_terms_by_frequency', lambda: _plain(h.tides.tidal_terms_by_frequency))
+            put('host.spin_derivative', lambda: h.calc_spin_derivative() if h.dUdO is not None else None)
+            put('host.spin_frequency', lambda: h.spin_frequency)
+            put('host.obliquity', lambda: h.obliquity)
         return out
 
     def _observe_world(self, w, pre, out, with_layers):
